@@ -163,6 +163,21 @@ def crate_source(defs, queries, values):
     lines.append("        for h in handles { for l in h.join().unwrap() { println!(\"{}\", l); } }")
     lines.append("        return;")
     lines.append("    }")
+    lines.append("    if let Ok(spec) = std::env::var(\"CORPUS_EXPORT_MIXED\") {")
+    lines.append("        // `i,j,..;r,s,..`: export() (the type alone) of the first list, then export_all() of the second, in one process, default directory")
+    lines.append("        let fs: Vec<(usize, fn() -> String, fn() -> String)> = vec![")
+    for i, t in enumerate(queries):
+        if t[0] == "named":
+            lines.append("            (%d, xo::<%s>, xd::<%s>)," % (i, C.rust_ty(t), C.rust_ty(t)))
+            owner[len(lines)] = ("q", i)
+    lines.append("        ];")
+    lines.append("        let mut parts = spec.split(';');")
+    lines.append("        let alone: Vec<usize> = parts.next().unwrap_or(\"\").split(',').filter_map(|s| s.parse().ok()).collect();")
+    lines.append("        let roots: Vec<usize> = parts.next().unwrap_or(\"\").split(',').filter_map(|s| s.parse().ok()).collect();")
+    lines.append("        for a in alone { if let Some(f) = fs.iter().find(|f| f.0 == a) { println!(\"X\\u{2}{}\\u{2}{}\", a, (f.1)()); } }")
+    lines.append("        for r in roots { if let Some(f) = fs.iter().find(|f| f.0 == r) { println!(\"X\\u{2}{}\\u{2}{}\", r, (f.2)()); } }")
+    lines.append("        return;")
+    lines.append("    }")
     lines.append("    if let Ok(dir) = std::env::var(\"CORPUS_EXPORT\") {")
     for i, t in enumerate(queries):
         lines.append("        x::<%s>(%d, &dir);" % (C.rust_ty(t), i))
@@ -275,6 +290,33 @@ def run_export(exe, out_dir):
     return st
 
 
+def run_export_mixed(exe, out_dir, alone, roots):
+    """T::export() for the types `alone`, then T::export_all() for `roots`, one process, TS_RS_EXPORT_DIR = out_dir;
+    returns ({index: status of the last call}, {path relative to out_dir: content})"""
+    import shutil
+    shutil.rmtree(out_dir, ignore_errors=True)
+    os.makedirs(out_dir, exist_ok=True)
+    os.makedirs(RUN_CWD, exist_ok=True)
+    p = vlib.run([exe], cwd=RUN_CWD, env={"CORPUS_EXPORT_MIXED": "%s;%s" % (",".join(map(str, alone)), ",".join(map(str, roots))),
+                                          "TS_RS_EXPORT_DIR": out_dir}, timeout=1800)
+    if p.returncode != 0:
+        raise vlib.HarnessError("corpus binary (mixed export mode) failed: %s" % p.stderr[-2000:])
+    st = {}
+    for line in p.stdout.split("\n"):
+        parts = line.split("\x02")
+        if parts[0] == "X":
+            st[int(parts[1])] = parts[2]
+    tree = {}
+    base = os.path.dirname(os.path.normpath(out_dir))
+    for root in (out_dir, os.path.join(base, "up")):
+        for dp, _, fns in os.walk(root):
+            for fn in fns:
+                fp = os.path.join(dp, fn)
+                tree[os.path.relpath(fp, out_dir)] = open(fp, encoding="utf-8", errors="replace").read()
+    shutil.rmtree(os.path.join(base, "up"), ignore_errors=True)
+    return st, tree
+
+
 def run_export_all(exe, out_dir, order=0, threads=1):
     """export_all_to(out_dir) for every derived query type, in the given order from the given number of threads;
     returns ({index: status}, {relative path: content})"""
@@ -316,6 +358,7 @@ HEADER = """From TsRs Require Import Base.Str Base.Outcome Gen.Tables Model.Case
 
 
 def env_file(defs, extra_chars=""):
+    C.register(defs)
     return (HEADER + unicode_coq(all_chars(defs) | set(extra_chars)) +
             "Definition R : env :=\n  %s.\n" % C.coq_env(defs) +
             "Definition cwd : list str := %s.\n" % coq_list([coq_str(x) for x in RUN_CWD.strip("/").split("/")]) +
@@ -556,6 +599,8 @@ def fix_def(d):
     if d.get("as_") is not None:
         d["as_"] = totuple(d["as_"])
     d["params"] = [(p[0], totuple(p[1]) if p[1] is not None else None) for p in d["params"]]
+    if d.get("concrete"):
+        d["concrete"] = [(int(i), totuple(t)) for i, t in d["concrete"]]
 
 
 if __name__ == "__main__":
